@@ -87,11 +87,15 @@ type writeLog struct {
 	client.Client
 	log         []string
 	failIngress bool // fail the next Get of an Ingress (fault injection)
+	failIngressAll bool // fail every Get of an Ingress (fault injection for a whole reconcile)
 }
 
 func (w *writeLog) Get(ctx context.Context, key client.ObjectKey, obj client.Object, opts ...client.GetOption) error {
 	if _, ok := obj.(*netv1.Ingress); ok && w.failIngress {
 		w.failIngress = false
+		return fmt.Errorf("injected: the API server is unavailable")
+	}
+	if _, ok := obj.(*netv1.Ingress); ok && w.failIngressAll {
 		return fmt.Errorf("injected: the API server is unavailable")
 	}
 	return w.Client.Get(ctx, key, obj, opts...)
